@@ -150,6 +150,11 @@ class Opaque(V):  # loggers etc.
     pass
 
 
+class Mask(V):  # a boolean DataFrame / Series: `table != 0`
+    def __init__(self, idx, c):
+        self.idx, self.c = idx, c
+
+
 class Poison(V):  # a helper variable whose two branch values cannot be merged; an error only if it is used
     def __init__(self, why):
         self.why = why
@@ -515,7 +520,7 @@ class Interp:
         return Poison("%s differs between the branches of an if (%s / %s)" % (k, type(va).__name__, type(vb).__name__))
 
     def cond_is_row(self, c):
-        if c[0] in ("isNone", "strEq", "rel"):
+        if c[0] in ("isNone", "strEq", "rel", "nonzero"):
             return True
         if c[0] in ("gIsNone", "gNonzero", "tt"):
             return False
@@ -629,6 +634,12 @@ class Interp:
             return self.subscript(n, vars_, mod)
         if isinstance(n, ast.Call):
             return self.call(n, vars_, mod)
+        if isinstance(n, ast.Compare) and len(n.ops) == 1 and isinstance(n.ops[0], (ast.NotEq, ast.Eq)):
+            l = self.ev(n.left, vars_, mod)
+            r = self.ev(n.comparators[0], vars_, mod)
+            if isinstance(l, Fr) and not l.attr and l.e[0] == "var" and isinstance(r, Py) and r.v == 0 and not isinstance(r.v, bool):
+                c = ("nonzero", l.e[1])
+                return Mask(l.idx, c if isinstance(n.ops[0], ast.NotEq) else ("not", c))
         if isinstance(n, ast.Compare) or isinstance(n, ast.BoolOp):
             c = self.cond(n, vars_, mod)
             if isinstance(c, bool):
@@ -797,6 +808,8 @@ class Interp:
                     return lift2(v, args[0], lambda x, y: ("sub", x, y), m)
                 if m == "round" and not args and not kw:
                     return Fr(v.idx, ("round", v.e))
+                if m == "where" and len(args) == 1 and not kw and isinstance(args[0], Mask) and args[0].idx == v.idx:
+                    return Fr(v.idx, ("ite", args[0].c, v.e, ("nan",)))  # pandas puts NaN where the mask is False
                 if m in ("to_numpy", "copy", "astype", "reindex"):
                     return v
             raise BrokenTie("unsupported method .%s of %s: %s" % (m, type(v).__name__, src))
@@ -929,7 +942,7 @@ def check_names(e, where):
         return
     if e[0] in ("var", "gvar") and e[1] not in KNOWN_VARS:
         raise BrokenTie("%s uses the input `%s`, which the Lean model does not name (Model/MExpr.lean Var)" % (where, e[1]))
-    if e[0] in ("isNone", "gIsNone", "strEq", "gNonzero") and e[1] not in KNOWN_VARS:
+    if e[0] in ("isNone", "gIsNone", "strEq", "gNonzero", "nonzero") and e[1] not in KNOWN_VARS:
         raise BrokenTie("%s tests the input `%s`, which the Lean model does not name" % (where, e[1]))
     if e[0] == "rel":
         for x in e[1:]:
@@ -972,6 +985,8 @@ def to_lean(e):
         return "(.ite %s %s %s)" % (cond_lean(e[1]), to_lean(e[2]), to_lean(e[3]))
     if t == "raise":
         return ".raise"
+    if t == "nan":
+        return ".nan"
     if t == "lookup":
         return "(.lookup .%s .%s %s)" % (e[1], e[2], to_lean(e[3]))
     if t == "ind":
@@ -981,7 +996,7 @@ def to_lean(e):
 
 def cond_lean(c):
     t = c[0]
-    if t in ("isNone", "gIsNone", "gNonzero"):
+    if t in ("isNone", "gIsNone", "gNonzero", "nonzero"):
         return "(.%s .%s)" % (t, c[1])
     if t == "strEq":
         return '(.strEq .%s "%s")' % (c[1], c[2].replace("\\", "\\\\").replace('"', '\\"'))
@@ -1020,6 +1035,8 @@ def infix(e):
         return "(if %s then %s else %s)" % (cinfix(e[1]), infix(e[2]), infix(e[3]))
     if t == "raise":
         return "RAISE"
+    if t == "nan":
+        return "NaN"
     if t == "lookup":
         return "%s[nearest %s: %s]" % (e[2], e[1], infix(e[3]))
     if t == "ind":
@@ -1033,6 +1050,8 @@ def cinfix(c):
         return "%s%s is None" % ("$" if t == "gIsNone" else "", c[1])
     if t == "gNonzero":
         return "$%s != 0" % c[1]
+    if t == "nonzero":
+        return "%s != 0" % c[1]
     if t == "strEq":
         return "%s == '%s'" % (c[1], c[2])
     if t == "rel":
